@@ -14,7 +14,8 @@ LEVEL = "exploration"
 BATCH = 16
 RULE = ("Histories of up to 4 requests on one protocol object with per-transmission faults from C04's alphabet and "
         "connect faults, interleaved with close() calls, idle periods and event-loop changes (successive "
-        "asyncio.run), x {udp,tcp} x keep-alive; every history ends with a fault-free request.  Monitors in the net: "
+        "asyncio.run; in a fifth of the seeded cases two long-lived loops used alternately, the one that is left "
+        "staying open - every request of such a history must work), x {udp,tcp} x keep-alive; every history ends with a fault-free request.  Monitors in the net: "
         "set of open transports per owner at every open event; at every return to the caller; transport identity of "
         "consecutive clean successes.  Non-trivial: a fault fired or a close()/loop change happened; distinct: "
         "(config, step kinds with fault kinds, outcomes, open/close counts).")
@@ -44,6 +45,21 @@ def make_case(tier, seed, index):
     ka = rnd.random() < 0.6
     enabled = [s for s in SYMBOLS if rnd.random() < 0.5]
     steps = []
+    if rnd.random() < 0.2:
+        # two long-lived event loops used alternately (e.g. one per thread / a loop that is re-entered): the loop that
+        # is left stays OPEN.  All requests are fault-free or lose transmissions within the budget; each one must work.
+        for j in range(rnd.randint(2, 6)):
+            if j and rnd.random() < 0.6:
+                steps.append({"op": "newloop"})
+            x = rnd.random()
+            if x < 0.15:
+                steps.append({"op": "close"})
+            elif x < 0.3:
+                steps.append({"op": "sleep", "d": rnd.choice([tau / 2, 3 * tau])})
+            k = rnd.randint(1, r) if r and rnd.random() < 0.25 else 0
+            steps.append({"op": "req", "faults": [{"k": "drop"}] * k, "connects": []})
+        steps[-1]["final"] = True
+        return {"transport": tr, "keep_alive": ka, "timeout": tau, "retries": r, "steps": steps, "loops": "alt"}
     nreq = rnd.randint(1, 4)
     for j in range(nreq):
         x = rnd.random()
@@ -119,7 +135,7 @@ def run_case(case):
                 await proto.close()
                 log.append((i, "close", open_count()))
             else:
-                if s.get("final"):
+                if s.get("final") or case.get("loops") == "alt":
                     # 'once faults stop': let every network event still in flight (late answers, resets, ICMP
                     # errors scheduled by earlier fault scripts) arrive before the fault-free request starts
                     await asyncio.sleep(EPS)  # events already popped from the net but still in the ready queue
@@ -134,14 +150,32 @@ def run_case(case):
                 log.append((i, "req", rec))
 
     status = "ok"
+    alt = case.get("loops") == "alt"
+    persistent = []
     for si, items in enumerate(segs):
         if si > 0:
             log.append((-1, "newloop", None))
         if not items:
             continue
-        status, _ = C.run_world(world, segment(items))
+        if alt:
+            # two persistent loops, used alternately; neither is closed while the history runs
+            while len(persistent) <= si % 2:
+                persistent.append(world.new_loop(f"P{len(persistent)}"))
+            try:
+                world.run(segment(items), loop=persistent[si % 2])
+            except C.SimDeadlock as e:
+                status = "deadlock"
+            except C.SimBudget as e:
+                status = "budget"
+        else:
+            status, _ = C.run_world(world, segment(items))
         if status != "ok":
             break
+    for lp in persistent:
+        try:
+            lp.close()
+        except Exception:  # noqa
+            pass
     if status != "ok":
         violations.append(viol(f"C10:hang:{tr}", f"history did not terminate: {status}"))
 
@@ -183,7 +217,12 @@ def run_case(case):
                     violations.append(viol(f"C10:not-reused:{tr}",
                                            f"keep-alive on: consecutive clean successes used transports "
                                            f"#{prev['tid']} and #{txs[0]['tid']}"))
-            if s.get("final") and status == "ok":
+            if alt and status == "ok" and (rec["outcome"] != "result" or len(txs) != len(s["faults"]) + 1):
+                violations.append(viol(f"C10:not-recovered:{tr}:alternating-loops",
+                                       f"two open event loops used alternately: request at step {i} "
+                                       f"({len(s['faults'])} transmissions lost, retries={r}) ended {rec['outcome']} after "
+                                       f"{len(txs)} transmission(s)"))
+            elif s.get("final") and status == "ok":
                 if rec["outcome"] != "result":
                     violations.append(viol(f"C10:not-recovered:{tr}",
                                            f"fault-free request after the history ended {rec['outcome']} "
